@@ -90,21 +90,33 @@ func fwRun(img []byte, level uint) (keys string, rtm string, after []byte, ks ps
 
 func first(s string) string { return strings.SplitN(s, " ", 2)[0] }
 
-// specDBKeys: the keys of a key database binary as the format lays them out (uncompressed
-// convention), each as a root-style token, if the binary is signed by `signer` over exactly
-// header ‖ SizeSigned bytes with the signature at SizeImage − |signature|.
+// specDBKeys: the keys of a key database binary as the format lays them out, each as a root-style
+// token, if the binary is signed by `signer` over exactly the documented covered range: header ‖
+// SizeSigned bytes with the signature at SizeImage − |signature| (uncompressed convention), header ‖
+// CompressedImageSize rounded up to 16 with the signature right behind it (compressed convention).
+// The keys are the records inside the covered range — bytes between the covered range and the
+// signature, and bytes behind the signature, are not part of the database.
 func specDBKeys(db []byte, signer *specKey) ([]*specKey, bool) {
-	if len(db) < 0x100 || !bytes.Equal(db[56:72], signer.id) || binary.LittleEndian.Uint32(db[72:]) != 0 {
+	if len(db) < 0x100 || !bytes.Equal(db[56:72], signer.id) {
 		return nil, false
 	}
-	sizeSigned := uint64(binary.LittleEndian.Uint32(db[20:]))
-	sizeImage := uint64(binary.LittleEndian.Uint32(db[108:]))
 	sigLen := uint64(len(signer.mod))
-	signedEnd := 0x100 + sizeSigned
-	if sizeImage < sigLen || signedEnd > uint64(len(db)) || sizeImage > uint64(len(db)) {
+	var signedEnd, sigStart uint64
+	if binary.LittleEndian.Uint32(db[72:]) == 0 {
+		sizeSigned := uint64(binary.LittleEndian.Uint32(db[20:]))
+		sizeImage := uint64(binary.LittleEndian.Uint32(db[108:]))
+		if sizeImage < sigLen {
+			return nil, false
+		}
+		signedEnd, sigStart = 0x100+sizeSigned, sizeImage-sigLen
+	} else {
+		signedEnd = 0x100 + (uint64(binary.LittleEndian.Uint32(db[84:]))+15)&^15
+		sigStart = signedEnd
+	}
+	if signedEnd > uint64(len(db)) || sigStart+sigLen > uint64(len(db)) {
 		return nil, false
 	}
-	if !specBlob(signer, db[sizeImage-sigLen:sizeImage], db[:signedEnd]) {
+	if !specBlob(signer, db[sigStart:sigStart+sigLen], db[:signedEnd]) {
 		return nil, false
 	}
 	body := db[0x100:signedEnd]
@@ -245,6 +257,26 @@ func runFirmware(x *run, a map[string]string, thorough bool) {
 		}
 	}
 	x.OSig("verdict-bound", "untrusted-key-in-keyset", "", untrusted)
+
+	if u := a["uncov"]; u != "" {
+		// oracle (bytes outside the covered ranges have no influence): the bytes of an entry that lie
+		// between the covered range and the signature, or behind the signature, may hold anything —
+		// zeros, FF, noise, or something that looks like a key record — without changing the key set
+		// or a verdict
+		got := ""
+		for _, fill := range []string{"00", "ff", "rand", "record"} {
+			m := fillRanges(img, u, fill, int64(atoi(a["mseed"])))
+			k2, v2, _, _ := fwRun(m, level)
+			if k2+" / "+v2 != keys+" / "+rtm && got == "" {
+				got = "with " + fill + " in the unsigned bytes: " + k2 + " / " + v2
+			}
+		}
+		exp := keys + " / " + rtm
+		if got == "" {
+			got = exp
+		}
+		x.OSig("uncovered-no-influence", "uncovered-influence:entry-unsigned-bytes", exp, got)
+	}
 
 	// tables: every verification of the chain, under every key that could be in the set
 	t := &tables{}
@@ -392,6 +424,48 @@ func runFirmware(x *run, a map[string]string, thorough bool) {
 	x.OSig("uncovered-no-influence", "uncovered-influence:rtm", "", unc)
 }
 
+// keyRecord: a key database record (80-byte header ‖ 256-byte modulus) with the given id.
+func keyRecordLike(r *rand.Rand, id []byte) []byte {
+	b := append(le32(80+256), le32(1)...)
+	b = append(b, le32(2)...)
+	b = append(b, le32(65537)...)
+	b = append(b, id...)
+	b = append(b, le32(2048)...)
+	b = append(b, make([]byte, 44)...)
+	m := randBytes(r, 256)
+	m[0] |= 1
+	m[255] |= 0x80
+	return append(b, m...)
+}
+
+// fillRanges overwrites the ranges "off,len;off,len…" of a copy of img.
+func fillRanges(img []byte, ranges, fill string, seed int64) []byte {
+	m := clone(img)
+	r := rand.New(rand.NewSource(seed))
+	for _, p := range strings.Split(ranges, ";") {
+		var off, ln int
+		if n, _ := fmt.Sscanf(p, "%d,%d", &off, &ln); n != 2 || off < 0 || ln < 0 || off+ln > len(m) {
+			panic("harness: bad range " + p)
+		}
+		var src []byte
+		switch fill {
+		case "00":
+			src = make([]byte, ln)
+		case "ff":
+			src = bytes.Repeat([]byte{0xff}, ln)
+		case "rand":
+			src = randBytes(r, ln)
+		case "record":
+			// whole records as long as they fit, then the prefix of one
+			for len(src) < ln {
+				src = append(src, keyRecordLike(r, keyID(byte(0xE8+len(src)/336)))...)
+			}
+		}
+		copy(m[off:off+ln], src[:ln])
+	}
+	return m
+}
+
 // ---- building ------------------------------------------------------------------------------------
 
 // fwSpec: what buildFirmware lays out.
@@ -401,7 +475,8 @@ type fwSpec struct {
 	oemCert string // certifying key of the OEM token: "root" | "db" | "abl" | "none" (no OEM entry)
 	// broken link: "" | "db-body" | "db-sig" | "abl-body" | "abl-sig" | "abl-wrongkey" | "abl-unknown" |
 	// "abl-selfsigned" | "oem-body" | "oem-sig" | "oem-wrongkey" | "oem-unknown" | "oem-selfsigned" |
-	// "rtm-sig" | "rtm-vol" | "rtm-dir"
+	// "rtm-sig" | "rtm-vol" | "rtm-dir" | "abl-gapkey" | "oem-gapkey" (with dbGap = "key": the token is
+	// certified, and properly signed, by the key whose record lies in the unsigned gap of the database)
 	brk      string
 	oemUsage uint32
 	dup      string // duplicate key id: "" | "db" | "abl-root" | "oem-db"
@@ -418,6 +493,19 @@ type fwSpec struct {
 	layout   string
 	volRange bool // the volume entry reaches one byte beyond the image
 	extra    int  // additional BIOS directory entries of a type nobody looks up
+	// bytes of an entry that no signature covers (gap-closing round 2):
+	//  dbComp    the key database uses the compressed size convention (its body is always 16-aligned)
+	//  dbGap     (uncompressed) SizeImage leaves bytes between the signed data and the signature:
+	//            "" | "00" | "ff" | "rand" (dbGapLen bytes) | "key" (exactly one key record: id E7…,
+	//            the stranger's key — it is not signed by anybody)
+	//  dbTail    bytes behind the signature inside the directory entry: "" | "rand" | "key"
+	//  tokTail   the ABL / OEM entries are longer than token ‖ signature
+	//  rootTail  the root key entry is longer than the key
+	dbComp            bool
+	dbGap             string
+	dbGapLen          int
+	dbTail            string
+	tokTail, rootTail int
 }
 
 func (s fwSpec) name() string {
@@ -440,6 +528,21 @@ func (s fwSpec) name() string {
 	if s.volRange {
 		ps = append(ps, "volrange")
 	}
+	if s.dbComp {
+		ps = append(ps, "dbcomp")
+	}
+	if s.dbGap != "" {
+		ps = append(ps, "dbgap-"+s.dbGap)
+	}
+	if s.dbTail != "" {
+		ps = append(ps, "dbtail-"+s.dbTail)
+	}
+	if s.tokTail > 0 {
+		ps = append(ps, "toktail")
+	}
+	if s.rootTail > 0 {
+		ps = append(ps, "roottail")
+	}
 	if len(ps) == 0 {
 		return fmt.Sprintf("chain-%s-%s", s.ablCert, s.oemCert)
 	}
@@ -453,10 +556,17 @@ func (s fwSpec) valid() bool {
 
 // buildFirmware lays out a complete synthetic AMD firmware.  keys: root, database key, ABL key, OEM
 // key, and a key that is in no key set ("stranger").
-func buildFirmware(r *rand.Rand, s fwSpec, rootK, dbK, ablK, oemK, strangerK *rsa.PrivateKey) (img []byte, cov, pad []byte) {
+func buildFirmware(r *rand.Rand, s fwSpec, rootK, dbK, ablK, oemK, strangerK *rsa.PrivateKey) (img []byte, cov, pad []byte, uncov string) {
 	level := s.level
 	rootID, dbID, ablID, oemID, strangerID := keyID(0xA1), keyID(0xB2), keyID(0xC3), keyID(0xD4), keyID(0xF6)
+	gapID := keyID(0xE7) // the key whose record sits in the unsigned gap of the key database
 	rootTok := keyToken(rootID, rootID, 0, &rootK.PublicKey)
+	// entry-relative ranges no signature covers and nobody reads
+	unsigned := map[string][][2]int{}
+	if s.rootTail > 0 {
+		unsigned["root"] = append(unsigned["root"], [2]int{len(rootTok), len(rootTok) + s.rootTail})
+		rootTok = append(rootTok, randBytes(r, s.rootTail)...)
+	}
 	flip := func(b []byte, lo, hi int) { b[lo+r.Intn(hi-lo)] ^= 1 << uint(r.Intn(8)) }
 
 	// key database: a PSP binary signed by the root key
@@ -468,12 +578,40 @@ func buildFirmware(r *rand.Rand, s fwSpec, rootK, dbK, ablK, oemK, strangerK *rs
 	} else if r.Intn(2) == 0 {
 		dbBody = append(dbBody, dbEntry(keyID(0xE5), 0, &strangerK.PublicKey, 0)...)
 	}
-	dbBin, dbSignedEnd, dbSigStart := pspBinary(r, rootK, rootID, dbBody, false, 0)
+	var gapBytes []byte
+	if !s.dbComp {
+		switch s.dbGap {
+		case "00":
+			gapBytes = make([]byte, s.dbGapLen)
+		case "ff":
+			gapBytes = bytes.Repeat([]byte{0xff}, s.dbGapLen)
+		case "rand":
+			gapBytes = randBytes(r, s.dbGapLen)
+		case "key":
+			gapBytes = dbEntry(gapID, 2, &strangerK.PublicKey, 0)
+		}
+	}
+	dbBin, dbSignedEnd, dbSigStart := pspBinary(r, rootK, rootID, dbBody, s.dbComp, len(gapBytes))
+	copy(dbBin[dbSignedEnd:dbSigStart], gapBytes) // (the signature is over dbBin[:dbSignedEnd])
+	if len(gapBytes) > 0 {
+		unsigned["db"] = append(unsigned["db"], [2]int{dbSignedEnd, dbSigStart})
+	}
 	switch s.brk {
 	case "db-body":
 		flip(dbBin, 0x100+80, dbSignedEnd)
 	case "db-sig":
 		flip(dbBin, dbSigStart, len(dbBin))
+	}
+	switch s.dbTail {
+	case "rand":
+		unsigned["db"] = append(unsigned["db"], [2]int{len(dbBin), 0})
+		dbBin = append(dbBin, randBytes(r, 1+r.Intn(64))...)
+	case "key":
+		unsigned["db"] = append(unsigned["db"], [2]int{len(dbBin), 0})
+		dbBin = append(dbBin, dbEntry(keyID(0xE6), 2, &strangerK.PublicKey, 0)...)
+	}
+	if n := len(unsigned["db"]); n > 0 && unsigned["db"][n-1][1] == 0 {
+		unsigned["db"][n-1][1] = len(dbBin)
 	}
 
 	signerOf := func(name string) (*rsa.PrivateKey, []byte) {
@@ -494,6 +632,8 @@ func buildFirmware(r *rand.Rand, s fwSpec, rootK, dbK, ablK, oemK, strangerK *rs
 			signer = strangerK
 		case what + "-unknown": // certified (and properly signed) by a key that is not in the key set
 			signer, certID = strangerK, strangerID
+		case what + "-gapkey": // certified (and properly signed) by the key whose record lies in the unsigned gap of the database
+			signer, certID = strangerK, gapID
 		case what + "-selfsigned": // names itself as certifying key and is properly signed with its own key
 			certID = id
 			switch what {
@@ -510,6 +650,10 @@ func buildFirmware(r *rand.Rand, s fwSpec, rootK, dbK, ablK, oemK, strangerK *rs
 			flip(tok, 64, len(tok)-len(signer.N.Bytes()))
 		case what + "-sig":
 			flip(tok, len(tok)-len(signer.N.Bytes()), len(tok))
+		}
+		if s.tokTail > 0 {
+			unsigned[what] = append(unsigned[what], [2]int{len(tok), len(tok) + s.tokTail})
+			tok = append(tok, randBytes(r, s.tokTail)...)
 		}
 		return tok
 	}
@@ -642,6 +786,16 @@ func buildFirmware(r *rand.Rand, s fwSpec, rootK, dbK, ablK, oemK, strangerK *rs
 	for i := 36; i < 56; i++ {
 		bl.cov[off["root"]+i] = false
 	}
+	var unc []string
+	for _, name := range []string{"root", "db", "abl", "oem"} {
+		for _, rg := range unsigned[name] {
+			for i := rg[0]; i < rg[1]; i++ {
+				bl.cov[off[name]+i], bl.pad[off[name]+i] = false, true
+			}
+			unc = append(unc, fmt.Sprintf("%d,%d", off[name]+rg[0], rg[1]-rg[0]))
+		}
+	}
+	uncov = strings.Join(unc, ";")
 	bl.put(r, nil, tail, false)
 	img = bl.b
 
@@ -690,7 +844,7 @@ func buildFirmware(r *rand.Rand, s fwSpec, rootK, dbK, ablK, oemK, strangerK *rs
 		img[off[d]+12+r.Intn(4)] ^= 1 << uint(r.Intn(8))
 	}
 	copy(img[sigOff:], sig)
-	return img, bitmap(bl.cov), bitmap(bl.pad)
+	return img, bitmap(bl.cov), bitmap(bl.pad), uncov
 }
 
 func genFirmware(g *gen, scale int, keys []*rsa.PrivateKey) {
@@ -698,17 +852,17 @@ func genFirmware(g *gen, scale int, keys []*rsa.PrivateKey) {
 	// five distinct 2048-bit keys: root, database, ABL, OEM, stranger
 	ks := []*rsa.PrivateKey{keys[0], keys[1], keys[2], rsaKey(2048, int64(r.Intn(1<<20))+(1<<21)), rsaKey(2048, int64(r.Intn(1<<20))+(1<<22))}
 	add := func(s fwSpec) {
-		img, cov, pad := buildFirmware(r, s, ks[0], ks[1], ks[2], ks[3], ks[4])
+		img, cov, pad, uncov := buildFirmware(r, s, ks[0], ks[1], ks[2], ks[3], ks[4])
 		covS, padS, expect := "", "", ""
 		if s.valid() {
 			covS, padS, expect = core.Hex(cov), core.Hex(pad), "valid"
 		}
 		kind := "firmware-" + s.name()
-		if s.valid() && s.layout == "" {
+		if s.valid() && strings.HasPrefix(s.name(), "chain-") {
 			kind = "firmware-valid"
 		}
 		g.add(kind, "firmware", "img", core.Hex(img), "level", itoa(s.level), "covered", covS, "padding", padS,
-			"variant", s.name(), "expect", expect, "broken", s.brk, "mseed", itoa(r.Intn(1<<30)))
+			"variant", s.name(), "expect", expect, "broken", s.brk, "mseed", itoa(r.Intn(1<<30)), "uncov", uncov)
 	}
 	base := func() fwSpec {
 		return fwSpec{level: 1 + r.Intn(2), ablCert: []string{"root", "db"}[r.Intn(2)],
@@ -754,6 +908,45 @@ func genFirmware(g *gen, scale int, keys []*rsa.PrivateKey) {
 			}
 			add(s)
 		}
+	}
+	// bytes inside an entry that no signature covers: a gap between the signed data of the key database
+	// and its signature (SizeImage > 0x100 + SizeSigned + |signature|) holding padding or a key record,
+	// bytes behind the signature inside the directory entry (database in both size conventions, ABL / OEM
+	// token, root key).  All of these are valid firmwares; a key whose record lies in the gap is not
+	// trusted, so a token it certifies breaks the chain.
+	gapLens := []int{1, 15, 16, 17, 80, 255, 256, 335, 336, 337, 500}
+	for i := 0; i < scale; i++ {
+		for _, gk := range []string{"00", "ff", "rand", "key"} {
+			s := base()
+			s.dbGap, s.dbGapLen = gk, gapLens[r.Intn(len(gapLens))]
+			if gk != "key" && i == 0 && r.Intn(2) == 0 {
+				s.dbGapLen = 336 // exactly the size of a key record
+			}
+			add(s)
+		}
+		for _, b := range []string{"abl-gapkey", "oem-gapkey"} {
+			s := base()
+			s.dbGap, s.brk = "key", b
+			if b == "abl-gapkey" && r.Intn(2) == 0 {
+				s.oemCert = "abl"
+			}
+			add(s)
+		}
+		for _, tk := range []string{"rand", "key"} {
+			s := base()
+			s.dbTail, s.dbComp = tk, r.Intn(2) == 0
+			add(s)
+		}
+		s := base()
+		s.dbComp = true
+		add(s)
+		s = base()
+		s.tokTail, s.rootTail = 1+r.Intn(300), r.Intn(2)*(1+r.Intn(40))
+		add(s)
+		s = base()
+		s.dbGap, s.dbGapLen, s.dbTail, s.tokTail, s.rootTail = []string{"00", "ff", "rand", "key"}[r.Intn(4)], gapLens[r.Intn(len(gapLens))], "rand", 1+r.Intn(64), 1+r.Intn(16)
+		s.layout = []string{"", "adjacent", "db-behind", "oem-behind"}[r.Intn(4)]
+		add(s)
 	}
 	// the remaining variants: duplicate ids, no OEM entry, wrong usage, volume entry out of range
 	for i := 0; i < scale; i++ {
